@@ -7,7 +7,7 @@ import numpy as np
 
 from .. import gen_circuit as G
 from .. import hier as H
-from ..simutil import int_to_row, row_to_int, lanes_mask, diff_lanes
+from ..simutil import int_to_row, row_to_int, lanes_mask, diff_lanes, KRandom
 
 ID = 'C10'
 TECHNIQUE = 'runtime monitoring: truth tables (ports + state-element inputs) of the really transformed circuit, simulated by the real LogicSim, are compared with an independent evaluation of the un-transformed hierarchical description (library cells flattened by an own parse of the library text); port/state names and order are compared with the description'
@@ -232,7 +232,7 @@ def shape_case(ctx, rng, idx):
     conn_in = {p for p in cd['ins'] if rng.random() < 0.75}
     conn_out = {p for p in cd['outs'] if rng.random() < 0.75}
     elim = rng.random() < 0.5
-    case = {'kind': 'shape', 'impl': text, 'in': sorted(conn_in), 'out': sorted(conn_out), 'eliminate_impl': elim}
+    case = {'kind': 'shape', 'impl': text, 'in': sorted(conn_in), 'out': sorted(conn_out), 'eliminate_impl': elim, 'rngkey': getattr(rng, 'key', None)}
     read = {}
     for o, k, a in cd['stmts']:
         for x in a:
@@ -371,7 +371,7 @@ def run(spec, ctx):
         witness(ctx)
     else:
         for i in range(spec['n']):
-            rng = random.Random(f'C10{kind}/{spec["seed"]}/{spec["shard"]}/{i}')
+            rng = KRandom(f'C10{kind}/{spec["seed"]}/{spec["shard"]}/{i}')
             (shape_case if kind == 'shapes' else hier_case)(ctx, rng, i)
 
 
@@ -385,7 +385,4 @@ def replay(case, ctx):
     elif k == 'hier':
         hier_check(ctx, case, 99)
     else:
-        # shape cases are regenerated from their shard seeds by the quick tier; replay re-runs a fixed sample
-        for i in range(300):
-            rng = random.Random(f'C10replay/{i}')
-            shape_case(ctx, rng, 99)
+        shape_case(ctx, KRandom(case['rngkey']), 99)
